@@ -272,7 +272,7 @@ func (r *Run) handler(tx *gobinlog.Transaction) error {
 		st.SetBinlogPosition(np)
 		r.mu.Lock()
 	}
-	if r.sc.MarshalTx && tx != nil {
+	if r.sc.MarshalTx && tx != nil && snapCells(call.Snap) < 20000 {
 		// a consumer that forwards what it gets as JSON (the library's own encoder,
 		// what cmd/binlogDump does): reading a transaction must not change it
 		r.mu.Unlock()
